@@ -12,6 +12,25 @@ func init() {
 	register("C29", "Decides the structural protocol of DropAll/DropPrefix: (R29.1) everything a drop pauses is resumed on every path: a successful prepareToDrop returns a closure that restarts the memtable flusher and unblocks writes, and each caller runs it on all exits (DropAll via the returned function, DropPrefix via defer, StreamWriter via sw.done); stopCompactions is paired with startCompactions; (R29.2) order: writes are blocked, then the queued requests are applied, then flushing stops; dropAll releases memtables, then drops the tree (MANIFEST first, R08.1), then the value log; DropPrefix flushes every memtable before releasing it and then drops prefixes from the last level up to L0; (R29.3) writes are refused (not queued) while blocked and the block is taken by compare-and-swap. Does NOT decide exact key sets, atomicity against concurrent writers as a history property, or crash points inside a drop beyond R08.", propC29)
 }
 
+// funcLitOf: the function literal an expression denotes — written in place, or bound to a
+// local that has this literal as its only definition.
+func (w *World) funcLitOf(f *Fn, e ast.Expr) *ast.FuncLit {
+	e = unparen(e)
+	if lit, ok := e.(*ast.FuncLit); ok {
+		return lit
+	}
+	if id, ok := e.(*ast.Ident); ok {
+		if v, ok := w.Use(id).(*types.Var); ok && !v.IsField() {
+			if defs := w.DefsOf(f, v); len(defs) == 1 {
+				if lit, ok := unparen(defs[0]).(*ast.FuncLit); ok {
+					return lit
+				}
+			}
+		}
+	}
+	return nil
+}
+
 func ruleR29_1(c *Check) {
 	w := c.W
 	r := c.Rule("R29.1", "E1", 10, "pairing: prepareToDrop's success result is a closure that calls startMemoryFlush and unblockWrite; dropAll returns, on every path after a successful prepareToDrop, a closure that calls startCompactions and that closure; DropAll runs the returned function whenever it is non-nil; DropPrefix defers it and defers startCompactions after stopCompactions; StreamWriter stores it in sw.done and runs it in Flush (defer) and Cancel",
@@ -21,8 +40,8 @@ func ruleR29_1(c *Check) {
 	var k keyer
 	for _, e := range pd.successExits() {
 		rs := e.Node.(*ast.ReturnStmt)
-		lit, ok := unparen(rs.Results[0]).(*ast.FuncLit)
-		if !ok {
+		lit := w.funcLitOf(pd, rs.Results[0])
+		if lit == nil {
 			r.Check(false, pd, k.key("resume closure returned", w, rs), rs, "success return does not return a function literal")
 			continue
 		}
@@ -66,7 +85,7 @@ func ruleR29_1(c *Check) {
 		id, _ := unparen(rs.Results[0]).(*ast.Ident)
 		afterStop := da.Dominated(e, da.Occs(stop, 0)).OK
 		if afterStop {
-			r.Check(id != nil && w.Use(id) == types.Object(resume.Bound), da, k.key("after stopCompactions every exit hands back resume", w, rs), rs, "returns "+short(w, rs.Results[0])+" instead of resume")
+			r.Check(w.funcLitOf(da, rs.Results[0]) == resume.Lit, da, k.key("after stopCompactions every exit hands back resume", w, rs), rs, "returns "+short(w, rs.Results[0])+" instead of resume")
 		} else {
 			r.Check(id != nil && fvar != nil && w.Use(id) == types.Object(fvar), da, k.key("before stopCompactions the exit hands back prepareToDrop's closure", w, rs), rs, "returns "+short(w, rs.Results[0]))
 		}
